@@ -44,6 +44,18 @@ def run(tier, seed):
         tr = os.path.join(d, "trace.ndjson")
         vlib.run_harness(["c20", "-out", tr, "-max", max_n, "-chunk", 1000, "-members", 13])
         rows = vlib.read_ndjson(tr)
+        # threshold use: boundary certificates through the real Verify* for n in 1..13 (driver shared with C02)
+        tr2 = os.path.join(d, "use.ndjson")
+        vlib.run_harness(["c02", "-out", tr2, "-seed", seed, "-ns", ",".join(str(i) for i in range(1, 14)),
+                          "-schemes", "eddsa" if tier == "quick" else "eddsa,ecdsa,bls12", "-reps", 1], timeout=1200)
+        nuse = 0
+        for x in vlib.read_ndjson(tr2):
+            if x["kind"] in ("qc", "tc") and (x["mut"].startswith("plain-") or x["mut"] == "honest-created") and not x["cache"]:
+                sg = x[x["kind"]]["sig"]
+                rows.append({"kind": "use", "n": x["n"], "what": x["kind"], "scheme": x["scheme"],
+                             "k": len(sg["bits"]) if sg["t"] == "bls" else len(sg["e"]), "ok": x["ok"]})
+                nuse += 1
+        vlib.write_ndjson(tr, rows)
         rt = vlib.tlc("Trace_C20", cwd=d, workers=1, timeout=1200, heap="8g")
         nvals = sum(len(x["f"]) for x in rows if x["kind"] == "chunk")
         ncfg = sum(1 for x in rows if x["kind"] == "config")
@@ -59,8 +71,11 @@ def run(tier, seed):
                         if not ok:
                             bad = {"n": n, "f": f, "q": q}
                             break
-                v.violation("quorum-arith", "NumFaulty/QuorumSize break the property at %s" % (bad or line),
-                            {"line": l, "case": bad or line, "harness": "hsverif c20 -max %d" % max_n})
+                if line and line["kind"] == "use":
+                    v.violation("quorum-use:" + line["what"], "certificate verification does not use the quorum threshold: %s" % line, {"line": l, "case": line})
+                else:
+                    v.violation("quorum-arith", "NumFaulty/QuorumSize break the property at %s" % (bad or line),
+                                {"line": l, "case": bad or line, "harness": "hsverif c20 -max %d" % max_n})
             else:
                 v.warn("conformance drift: real values differ from the model's F/Q at line %d (property still holds)" % l)
                 # re-run with the property alone so that the rest is judged
@@ -88,14 +103,15 @@ def run(tier, seed):
         "evaluations": nvals + ncfg,
         "distinct_nontrivial": nvals + ncfg,
         "rule": "every n in 1..%d (hotstuff.NumFaulty, hotstuff.QuorumSize) and every membership size 1..13 "
-                "(RuntimeConfig.QuorumSize); each n is a distinct case" % max_n,
+                "(RuntimeConfig.QuorumSize); each n is a distinct case; plus boundary certificates (0,1,q-1,q,q+1,n distinct valid signatures) through the real "
+                "VerifyQuorumCert/VerifyTimeoutCert for n in 1..13" % max_n,
         "model": {"tlc_n_range": "1..10000", "tlc_states": r.distinct, "negative_control_refuted": True,
                   "apalache_all_n": {"obligations": 1, "discharged": 1, "negative_control_refuted": True,
                                      "cmd": "apalache-mc check --length=0 --inv=Inv QuorumApa.tla"}},
-        "trace_lines": len(rows),
+        "trace_lines": len(rows), "threshold_use_cases": nuse,
         "checker_cmd": rt.cmd,
     }, time.time() - t0, violations=len(v.violations), assumptions=[
-        "TLC, Apalache/Z3 and SANY are sound", "threshold *use* by certificate code is covered by C02/C08/C09"])
+        "TLC, Apalache/Z3 and SANY are sound", "threshold use when *forming* certificates is covered by C08/C09"])
     return rc
 
 
